@@ -27,6 +27,11 @@ pub fn marker(case_idx: u64, text: &str) {
 }
 
 pub fn worker_main(prop: &dyn Prop, ctx: Ctx, w: u64, nw: u64, start_unit: u64) {
+    // a worker never outlives its supervisor
+    #[cfg(all(target_os = "linux", not(miri)))]
+    unsafe {
+        libc::prctl(libc::PR_SET_PDEATHSIG, libc::SIGKILL);
+    }
     crate::monitor::install_panic_hook();
     crate::monitor::start_cpu_watchdog(prop.cpu_limit_s(ctx.tier) * 1_000_000);
     let n = prop.units(ctx.tier);
@@ -79,6 +84,19 @@ struct WorkerState {
     deaths: u32,
 }
 
+/// pids of the live worker processes (killed when a run is cut short)
+static WORKER_PIDS: std::sync::Mutex<Vec<u32>> = std::sync::Mutex::new(Vec::new());
+
+fn kill_workers() {
+    if let Ok(v) = WORKER_PIDS.lock() {
+        for pid in v.iter() {
+            unsafe {
+                libc::kill(*pid as i32, libc::SIGKILL);
+            }
+        }
+    }
+}
+
 fn spawn_worker(
     prop_id: &str,
     ctx: &Ctx,
@@ -105,6 +123,10 @@ fn spawn_worker(
         .stderr(Stdio::null())
         .spawn()?;
     let stdout = child.stdout.take().unwrap();
+    let pid = child.id();
+    if let Ok(mut v) = WORKER_PIDS.lock() {
+        v.push(pid);
+    }
     std::thread::spawn(move || {
         let rd = BufReader::with_capacity(1 << 20, stdout);
         for line in rd.split(b'\n') {
@@ -116,6 +138,9 @@ fn spawn_worker(
             }
         }
         let st = child.wait().ok();
+        if let Ok(mut v) = WORKER_PIDS.lock() {
+            v.retain(|p| *p != pid);
+        }
         let code = st.and_then(|s| s.code());
         #[cfg(unix)]
         let sig = {
@@ -129,6 +154,8 @@ fn spawn_worker(
 
 #[derive(Default)]
 struct Agg {
+    /// the run was stopped early because the verdict (violated) was already settled
+    cut_short: bool,
     evals: u64,
     hashes: HashSet<u64>,
     dbc: u64,
@@ -258,18 +285,18 @@ pub fn run_check(prop: &dyn Prop, tier: Tier, seed: u64, triage: bool) -> i32 {
         }
     }
     let budget = prop.wall_budget_s(tier);
+    let known = load_known(id);
+    let mut deaths_by_class: BTreeMap<String, u64> = BTreeMap::new();
     let mut live = nw;
     while live > 0 {
+        if t0.elapsed().as_secs() > budget {
+            agg.inconclusive.push(format!("wall-clock budget of {} s exceeded", budget));
+            kill_workers();
+            break;
+        }
         let msg = match rx.recv_timeout(std::time::Duration::from_secs(5)) {
             Ok(m) => m,
-            Err(mpsc::RecvTimeoutError::Timeout) => {
-                if t0.elapsed().as_secs() > budget {
-                    agg.inconclusive
-                        .push(format!("wall-clock budget of {} s exceeded", budget));
-                    break;
-                }
-                continue;
-            }
+            Err(mpsc::RecvTimeoutError::Timeout) => continue,
             Err(_) => break,
         };
         match msg {
@@ -336,11 +363,25 @@ pub fn run_check(prop: &dyn Prop, tier: Tier, seed: u64, triage: bool) -> i32 {
                         phase_class(&phase)
                     ),
                 };
+                // many deaths of one class that is not a known finding: the verdict is settled
+                // (violated); cut the run short instead of paying for every further death
+                let n_class = {
+                    let e = deaths_by_class.entry(class.clone()).or_insert(0);
+                    *e += 1;
+                    *e
+                };
+                let cut_short = n_class >= 40 && known.lookup(&class).is_none();
                 agg.failures.push((
-                    class,
+                    class.clone(),
                     json!({"unit": unit, "case": case_idx, "marker": phase, "record": fr,
                            "exit_code": code, "signal": sig}),
                 ));
+                if cut_short {
+                    println!("NOTE: run cut short after {} worker deaths of class {}", n_class, class);
+                    agg.cut_short = true;
+                    kill_workers();
+                    break;
+                }
                 let Some(u) = unit else {
                     agg.inconclusive
                         .push(format!("worker {} died outside a unit (code {:?}, signal {:?})", w, code, sig));
@@ -445,11 +486,11 @@ fn finish(
         .filter(|m| agg.features.get(*m).copied().unwrap_or(0) == 0)
         .cloned()
         .collect();
-    if !missing.is_empty() {
+    if !missing.is_empty() && !agg.cut_short {
         agg.inconclusive
             .push(format!("mandatory feature buckets never observed: {:?}", missing));
     }
-    if agg.units_done + agg.deaths < n_units {
+    if agg.units_done + agg.deaths < n_units && !agg.cut_short {
         agg.inconclusive.push(format!(
             "only {} of {} work units completed",
             agg.units_done, n_units
@@ -474,6 +515,7 @@ fn finish(
         "known_findings_hit": known_hit,
         "violation_classes": viol_list,
         "inconclusive_reasons": agg.inconclusive,
+        "run_cut_short_after_repeated_worker_deaths": agg.cut_short,
     });
     if let Some(x) = prop.exhaustive(tier) {
         coverage["exhaustive"] = json!(true);
